@@ -1,3 +1,2 @@
 import PieModel.Props.C11
-open PieModel
-#print axioms C11_placeholder
+#print axioms PieModel.C11_placeholder
